@@ -190,7 +190,7 @@ def correspond(ctx, model):
             if bad >= 8:
                 break
     # random trees
-    n = ctx.n(200, 3000)
+    n = ctx.n(200, 2000)
     dmax = ctx.n(4, 7)
     for i in range(n):
         dt_of = T.dtype_regime(ctx.rng)
